@@ -16,13 +16,13 @@ def gen_config(rng, tier, i=0, **fix):
     nchan = int(rng.integers(1, P // 2 + 1)) if rng.random() < 0.7 else int(common.pick(rng, [1, 2, P // 2]))
     nchan = min(nchan, 12)
     start_chan = int(rng.integers(0, P // 2 - nchan + 1))
-    npol = 1 + (i % 2)
-    bits = 8 if (i // 2) % 3 else 4
-    nants = 1 if (i // 6) % 3 else int(rng.integers(2, 4))
+    npol = 1 + common.stratum(i, 101, 2)
+    bits = 8 if common.stratum(i, 102, 3) else 4
+    nants = 1 if common.stratum(i, 103, 3) else int(rng.integers(2, 4))
     mult = int(rng.integers(1, 13))
     nblocks = int(rng.integers(1, 8))
     cfg = dict(sample_rate=float(common.pick(rng, [3e9, 2.4e9, 1.7e8, 1e6, 48000.0])),
-               fch1=float(common.pick(rng, [0.0, 1e9, 6e9, 8.4213e9])), asc=bool((i // 3) % 2),
+               fch1=float(common.pick(rng, [0.0, 1e9, 6e9, 8.4213e9])), asc=bool(common.stratum(i, 104, 2)),
                npol=npol, nants=nants, delays=[int(x) for x in rng.integers(0, 7, size=nants)] if nants > 1 else None,
                M=M, P=P, window=str(common.pick(rng, ['hamming', 'hann', 'blackman', 'boxcar'])),
                start_chan=start_chan, nchan=nchan, bits=bits, mult=mult, nblocks=nblocks,
